@@ -377,7 +377,20 @@ def _iter_classes_1(repo, f, it, at, depth=0):
                 if v is None:
                     return None
                 out += [x for x in v if x not in out]
-        return out if found else None
+        if found:
+            return out
+        # not a local: a module-level list / tuple of classes
+        binds = f.module.bindings.get(it.id, [])
+        vals = [b[1] for b in binds if b[0] == 'assign']
+        if vals and len(vals) == len(binds):
+            out = []
+            for v in vals:
+                r = _iter_classes(repo, f, v, None, depth + 1)
+                if r is None:
+                    return None
+                out += [x for x in r if x not in out]
+            return out
+        return None
     return None
 
 
